@@ -45,7 +45,9 @@ Us == {t, t + 1, t + 2, t + 4, t + 6}
 \*  asked for on a few queries only, to cover the "adj or self.adj" defaulting)
 Queries == {Q("is_bday", 0, 0, ""), Q("is_holiday", 0, 0, "")}
            \cup {Q("adjust", 0, 0, a) : a \in Advs}
-           \cup {Q(op, n, 0, "") : op \in {"add", "add_inv", "bdays_add", "dt_bump"}, n \in Ns}
+           \cup {Q("add", n, 0, "") : n \in Ns}
+           \cup {Q(op, n, 0, "") : op \in {"add_inv", "bdays_add"}, n \in Ns \cap {-8, -3, -2, -1, 0, 1, 2, 3, 8}}
+           \cup {Q("dt_bump", n, 0, "") : n \in Ns \cap {-3, -2, -1, 0, 1, 2, 3}}
            \cup {Q("add", n, 0, a) : n \in {-2, -1, 1, 2}, a \in {"f", "p", "m"}}
            \cup {Q("bump0", n, 0, "") : n \in {-1, 1}}
            \cup {Q("add_twice", n, 0, "") : n \in {-1, 1}}
@@ -92,7 +94,7 @@ TableLaw == ~done \/ LET tab == BTable(c) IN
     /\ \A i \in 1..Len(tab) : IsBday(c, tab[i]) /\ InRange(c, tab[i]) /\ PosIn(tab, tab[i]) = i
     /\ \A i \in 1..(Len(tab) - 1) : tab[i] < tab[i + 1] /\ tab[i + 1] = AdjF(c, tab[i] + 1)
     /\ (IsBday(c, t) <=> PosIn(tab, t) # 0)
-MonthNoIsMonthOf == ~done \/ \A d \in (t - 45)..(t + 45) : MonthNo(d) = MonthOf(d)
+MonthNoIsMonthOf == ~done \/ \A d \in {t - 31, t - 1, t, t + 1, t + 31} : MonthNo(d) = MonthOf(d)
 \* vacuity guards: the window really straddles a weekend and a month end
 Straddles == \A k \in Anchors : /\ \E d \in WinLo(k)..(WinHi(k) - 1) : ~SameMonth(d, d + 1)
                                 /\ {Weekday(d) : d \in WinLo(k)..WinHi(k)} = 0..6
